@@ -240,19 +240,19 @@ def shards(tier):
         out.append(("big#0", lambda ctx: drive_hypothesis(ctx, body_vs, vs_cases(24, big=True), 60, shrink=False)))
         out.append(("twin#0", lambda ctx: drive_hypothesis(ctx, body_twin, twin_cases(), 150)))
     else:
+        for i in range(12):
+            out.append(("small#%d" % i, lambda ctx: drive_hypothesis(ctx, body_vs, vs_cases(8), 12000)))
+        for i in range(8):
+            out.append(("mid#%d" % i, lambda ctx: drive_hypothesis(ctx, body_vs, vs_cases(14, big=True), 6000)))
         for i in range(6):
-            out.append(("small#%d" % i, lambda ctx: drive_hypothesis(ctx, body_vs, vs_cases(8), 6000)))
-        for i in range(4):
-            out.append(("mid#%d" % i, lambda ctx: drive_hypothesis(ctx, body_vs, vs_cases(14, big=True), 3000)))
-        for i in range(3):
-            out.append(("allobs#%d" % i, lambda ctx: drive_hypothesis(ctx, body_vs, vs_cases(7, all_obs=True), 700)))
-        for i in range(2):
-            out.append(("big#%d" % i, lambda ctx: drive_hypothesis(ctx, body_vs, vs_cases(40, big=True), 800, shrink=False)))
+            out.append(("allobs#%d" % i, lambda ctx: drive_hypothesis(ctx, body_vs, vs_cases(7, all_obs=True), 1200)))
+        for i in range(6):
+            out.append(("big#%d" % i, lambda ctx: drive_hypothesis(ctx, body_vs, vs_cases(40, big=True), 1200, shrink=False)))
         out.append(("twin#0", lambda ctx: drive_hypothesis(ctx, body_twin, twin_cases(), 300)))
     return out
 
 
-LEVEL_TEXT = ("Differential search against an independent O(n^2) executable statement of the line-of-sight model: hundreds (quick) / thousands (thorough) of "
+LEVEL_TEXT = ("Differential search against an independent O(n^2) executable statement of the line-of-sight model: thousands (quick) / ~200k (thorough) "
               "terrains incl. tie-rich plateaus, every observer cell on sampled terrains, grids up to 24 (quick) / 40 (thorough) cells a side for deep trees.")
 LEVEL_NOTE = ("Sampled; the reference model was derived from the function's documented model (event bearings, linear corner-centre-corner interpolation) and "
               "shares no code with the sweep/tree; gradient ties within 1e-12 are skipped and counted; reference twin (pure Python vs compiled) cross-checked each run.")
